@@ -15,6 +15,7 @@
    - what a decompressor is handed is at most min(csize, M) bytes.
    The reader is therefore "tame for reading" with position c_pos and bound
    max_uncompressed_pos: the block parser and repair above it are total (RdOnly). *)
+From MLA Require Import Limit.
 From MLA Require Import Base Stream CompLayer Total.
 From Coq Require Import ZifyBool ZifyNat ZifyN.
 Open Scope N_scope.
@@ -49,6 +50,7 @@ Proof.
 Qed.
 
 Section ReadExact.
+  Context {LIM : Limit}.
   Variable S : Stream.
   Variable I : st S -> Prop.
   Variable pos : st S -> N.
@@ -76,6 +78,7 @@ End ReadExact.
 
 Section CompTotal.
   Variables BLOCK LIMIT : N.
+  Local Hint Extern 0 Limit => exact LIMIT : typeclass_instances.
   Variable dec : bytes -> bytes.
   Variable S : Stream.
   Variable Iin : st S -> Prop.
